@@ -161,6 +161,25 @@ def run(run):
                 check('json text', concepts.Context.fromjson(io.StringIO(buf.getvalue())))
                 jd = json.loads(buf.getvalue())
                 check('json dict', concepts.Context.fromdict(jd))
+                # JSON with raw=True: any permutation of the stored sequences
+                jperm = dict(jd, lattice=[list(map(list, e)) for e in permute_stored(rng, dd['lattice'])])
+                check('json-raw permuted', concepts.Context.fromjson(io.StringIO(json.dumps(jperm)), raw=True))
+                check('json-raw inner-shuffled', concepts.Context.fromjson(
+                    io.StringIO(json.dumps(dict(jd, lattice=[list(map(list, e)) for e in shuffle_inner(rng, dd['lattice'])]))), raw=True))
+                # what the caller does with a returned dict must not show in later serialisations
+                scratch = ctx.todict()
+                scratch['lattice'].reverse()
+                del scratch['lattice'][:1]
+                scratch['context'].clear()
+                scratch['objects'] = list(scratch['objects'])[::-1]
+                again = ctx.todict()
+                if (list(again['lattice']) != list(dd['lattice']) or list(again['context']) != list(dd['context'])
+                        or tuple(again['objects']) != tuple(dd['objects'])):
+                    run.fail('todict() after the caller edited an earlier todict() result', again, dd, [pc.line, 'tolist'], extra)
+                buf2 = io.StringIO()
+                ctx.tojson(buf2)
+                if buf2.getvalue() != buf.getvalue():
+                    run.fail('tojson() after the caller edited an earlier todict() result', buf2.getvalue(), buf.getvalue(), [pc.line, 'tolist'], extra)
                 if count % 4 == 0:
                     path = os.path.join(work, 'c.json')
                     ctx.tojson(path, indent=2)
